@@ -79,6 +79,8 @@ def signature(ev, invariant):
         if str(ev.get("what", "")).startswith("subscription"):
             return "subscription-fails:%s" % str(ev.get("what")).split()[1]
         return "error:%s" % ev.get("what")
+    if ev.get("e") == "SubLost":
+        return "subscriber-lost-wakeup:%s" % ev.get("kind")
     if ev.get("e") == "SubExtra":
         return "subscriber-extra:%s" % ev.get("kind")
     if ev.get("e") == "SubDrain":
